@@ -17,6 +17,8 @@ pub mod std_sec;
 pub mod doc;
 #[path = "c06_corr.rs"]
 pub mod corr;
+#[path = "c06_fixtures.rs"]
+pub mod fixtures;
 
 use crate::driver::{hex, Driver};
 use crate::report::*;
@@ -275,8 +277,72 @@ fn classify(bad: &[String], vtag: &str) -> String {
     format!("plaintext-mismatch:{}:{}", kind, vtag)
 }
 
+fn variant_named(name: &str, n: usize) -> Variant {
+    variants().into_iter().find(|v| v.name == name && v.n == n).expect("variant")
+}
+
+/// deterministic witnesses, run first on every run: one document per variant family and layout (these are
+/// the regression witnesses of D17: AES-256 strings and streams; of the direct `/Encrypt` dictionary)
+fn witnesses(or: &mut Oracle) {
+    let fams: [(&str, usize); 8] = [("R2-RC4-40", 5), ("R3-RC4", 5), ("R3-RC4", 16), ("R4-RC4", 7), ("R4-RC4", 16), ("R4-AES128", 16), ("R5-AES256", 32), ("R6-AES256", 32)];
+    let mut k = 0u64;
+    for (name, n) in fams {
+        for (xref_stream, indirect) in [(false, true), (true, true), (false, false), (true, false)] {
+            let opt = DocOptions { tweak: None, variant: variant_named(name, n), encrypt_metadata: !(name.starts_with("R4") || name.starts_with("R5")) || k % 2 == 0, indirect_encrypt: indirect, xref_stream, with_metadata: true, with_objstm: true };
+            files_case(or, 0xC06, 1_000_000 + k, Some(&opt));
+            k += 1;
+        }
+    }
+}
+
+/// malformed encryption dictionaries must end in an error, never in a panic (D18)
+fn hostile_oracle() -> Oracle {
+    let mut or = Oracle::new("c06.hostile");
+    let cases: [(&str, usize, Tweak); 6] = [
+        ("R3-RC4", 16, Tweak::LengthZero),
+        ("R2-RC4-40", 5, Tweak::LengthZero),
+        ("R4-RC4", 16, Tweak::LengthFour),
+        ("R6-AES256", 32, Tweak::EmptyUE),
+        ("R5-AES256", 32, Tweak::EmptyUE),
+        ("R6-AES256", 32, Tweak::ShortUEOE),
+    ];
+    for (k, (name, n, tweak)) in cases.iter().enumerate() {
+        let mut rng = Rng::derive(0xC06, "c06.hostile", k as u64);
+        let opt = DocOptions { tweak: Some(*tweak), variant: variant_named(name, *n), encrypt_metadata: true, indirect_encrypt: true, xref_stream: k % 2 == 1, with_metadata: true, with_objstm: false };
+        let d = build(&mut rng, &opt, b"user", b"owner");
+        // V 1 ignores /Length: that document is well-formed and must simply open
+        for pw in [&b"user"[..], &b"owner"[..], &b"nope"[..]] {
+            // V 1 ignores /Length: that document is well-formed; a damaged /UE does not concern the owner
+            let must_open = pw != b"nope" && (*name == "R2-RC4-40" || (*tweak == Tweak::EmptyUE && pw == b"owner"));
+            let r = open_and_compare(&d, pw);
+            let replay = json!({"oracle": "c06.hostile", "case": k, "doc": d.desc, "password_hex": hex(pw), "file_hex": hex(&d.bytes)});
+            or.case(&format!("{}#{}", d.desc, hex(pw)), true, || json!({"doc": d.desc, "result": format!("{:?}", r).chars().take(120).collect::<String>()}));
+            or.count(&format!("tweak={:?}", tweak));
+            match r {
+                OpenResult::Panic(m) => or.fail(&format!("panic:{:?}", tweak), &format!("{}: panic instead of an error: {}", d.desc, m), replay),
+                OpenResult::Ok(bad) => {
+                    if !must_open {
+                        or.fail(&format!("opened:{:?}", tweak), &format!("{}: opened with {:?} although no usable key can be derived", d.desc, String::from_utf8_lossy(pw)), replay)
+                    } else if !bad.is_empty() {
+                        or.fail("plaintext-mismatch:hostile", &format!("{}: {}", d.desc, bad[0]), replay)
+                    }
+                }
+                OpenResult::BadPassword | OpenResult::OtherErr(_) => {
+                    if must_open {
+                        or.fail(&format!("load-failed:{:?}", tweak), &format!("{}: does not open with {:?}", d.desc, String::from_utf8_lossy(pw)), replay)
+                    }
+                }
+            }
+        }
+    }
+    or
+}
+
 pub fn files_oracle(seed: u64, from: u64, to: u64) -> Oracle {
     let mut or = Oracle::new("c06.files");
+    if from == 0 {
+        witnesses(&mut or);
+    }
     for case in from..to {
         files_case(&mut or, seed, case, None);
     }
@@ -293,13 +359,19 @@ pub fn run(driver: &Driver, seed: u64, thorough: bool, replay: Option<&Value>) -
         let case = r["case"].as_u64().unwrap_or(0);
         let name = r["oracle"].as_str().or(r["stream"].as_str()).unwrap_or("c06.files").to_string();
         match name.as_str() {
+            "c06.files" if case >= 1_000_000 => rep.oracles.push(files_oracle(seed, 0, 0)),
             "c06.files" => rep.oracles.push(files_oracle(seed, case, case + 1)),
+            "c06.hostile" => rep.oracles.push(hostile_oracle()),
+            "c06.fixtures" => rep.oracles.push(fixtures::fixtures_oracle()),
             _ => corr::replay(driver, &mut rep, &name, seed, case),
         }
         return rep;
     }
     let _ = NoResolve;
     corr::run(driver, &mut rep, seed, thorough);
+    rep.oracles.push(hostile_oracle());
+    rep.oracles.push(fixtures::fixtures_oracle());
     rep.oracles.push(files_oracle(seed, 0, if thorough { 30_000 } else { 1500 }));
     rep
 }
+
